@@ -193,11 +193,12 @@ def h_transparency(X, *, nmax, max_cuts, dense, sends_max, sends_min=0, roles=RO
         pos += s
     parts = [S.record(S.APPDATA, c) for c in chunks]
     if tickets:
-        tk = X.choose("post_handshake_record", ["none"] + [f"before-{i}" for i in range(len(parts) + 1)])
+        spots = range(len(parts) + 1) if tickets == "all" else sorted({0, len(parts)})
+        tk = X.choose("post_handshake_record", ["none"] + [f"before-{i}" for i in spots])
         if tk != "none":
             parts.insert(int(tk.split("-")[1]), S.Peer.ticket())
             X.reach("post-handshake-record")
-    if tickets and n and X.boolean("empty_record_first"):
+    if tickets == "all" and n and X.boolean("empty_record_first"):
         parts.insert(0, S.record(S.APPDATA, b""))
     ending = X.choose("ending", list(endings))
     if ending.startswith("close_notify"):
@@ -379,13 +380,13 @@ def obligations(tier):
                  bounds="the stub and a real OpenSSL TLS 1.3 memory-BIO pair answer identically on the contract points used by TLSLayer "
                         "(WantReadError on partial records, one record per recv, ZeroReturnError + RECEIVED_SHUTDOWN on close_notify, half-close writes)",
                  encoded=[]),
-        Symx("inbound-segmentation", lambda X: h_transparency(X, nmax=2 if quick else 3, max_cuts=2, dense=not quick, sends_max=0),
-             bounds=f"3 roles x plaintext of 0..{2 if quick else 3} bytes in every record split x optional empty record x post-handshake handshake record at every "
-                    f"position x 4 endings; peer bytes (last handshake flight + records + close_notify) cut into <= 3 TCP segments "
+        Symx("inbound-segmentation", lambda X: h_transparency(X, nmax=2 if quick else 3, max_cuts=2, dense=not quick, sends_max=0, tickets=True if quick else "all"),
+             bounds=f"3 roles x plaintext of 0..{2 if quick else 3} bytes in every record split x post-handshake handshake record before the first / after the last record (thorough: every position, optional empty record) "
+                    f"x 4 endings; peer bytes (last handshake flight + records + close_notify) cut into <= 3 TCP segments "
                     f"(first cut anywhere, second {'from 5 positions after the first' if quick else 'anywhere'})",
              encoded=ENCODED, must_reach=["end", "data", "data-in-same-segment-as-last-flight", "post-handshake-record", "close_notify", "close_notify+tcp-close", "tcp-close"] + ROLES,
              stubs=STUBS, parallel_depth=5),
-        Symx("interleaving", lambda X: h_transparency(X, nmax=2, max_cuts=2 if quick else 3, dense=False, coarse=True, sends_min=1, sends_max=2, tickets=not quick,
+        Symx("interleaving", lambda X: h_transparency(X, nmax=2, max_cuts=2 if quick else 3, dense=False, coarse=True, sends_min=1, sends_max=2, tickets=False if quick else "all",
                                                       endings=("open", "close_notify+tcp-close", "tcp-close") if quick else ("open", "close_notify", "close_notify+tcp-close", "tcp-close")),
              bounds=f"3 roles x plaintext 0..2 bytes in every record split x {3 if quick else 4} endings x child sends 1..2 chunks (1 and 2 bytes) at every position between inbound "
                     f"segments x stub fragment size 1/16384; <= {3 if quick else 4} TCP segments, cuts from the structural menu (inside / at the end of the last handshake "
